@@ -6,24 +6,25 @@ MODEL = "C03"
 MODEL_QUALID = "Model.Circuit.run_script"
 NCFG = 14
 PER_EV = 11
-FORMAT = ("script [time_based + 2*unit_us (unit_us=1: every duration and advance of the script is in MICROseconds instead of ms; the model is unit-agnostic); wsize; wdur_ms; min_calls (<0: not set, defaults to wsize); fnum; fden; slow_on; slow_thr_ms; snum; sden; wait_open_ms; permitted; has_fallback; n; (op a b)*] "
-          "op 1=Poll a 2=Drop a 3=Advance a(ms) 4=Complete a b 5=ForceOpen 6=ForceClosed 7=Reset 8=Call a (create the call future without polling it); events naming a caller outside 0..n-1 are skipped; "
+FORMAT = ("script [time_based + 2*unit_us + 4*unit_ns (unit_us / unit_ns = 1: every duration and advance of the script is in MICROseconds / NANOseconds instead of ms; the model is unit-agnostic); wsize; wdur_ms; min_calls (<0: not set, defaults to wsize); fnum; fden; slow_on; slow_thr_ms; snum; sden; wait_open_ms; permitted; has_fallback; n; (op a b)*] "
+          "op 1=Poll a 2=Drop a 3=Advance a(ms) 4=Complete a b 5=ForceOpen 6=ForceClosed 7=Reset 8=Call a (create the call future without polling it) 15/16/17=force_open/force_closed/reset called on the service's own handle (the fallback service when a fallback is configured) instead of the plain clone, 25/26=HealthTriggerable::trigger_unhealthy/trigger_healthy on the service's handle (cargo feature health-integration; = force_open/force_closed by a spawned task); events naming a caller outside 0..n-1 are skipped; "
           "outcome b: 0 ok, 1 ok classified failure, 2 err, 3 err classified success, 4 inner panic, 5 ok on which the failure classifier panics. "
-          "trace per event [r; started (number of inner calls started by the event); state; state_sync(+10 if is_open disagrees, +20 if the fallback service's lock-free view differs from the plain clone's); metrics.state; total; failures; successes; slow; in-flight; wake mask]; "
+          "trace per event [r; started (number of inner calls started by the event); state; state_sync(+10 if is_open disagrees, +20 +100*code(the service handle's lock-free view) if that view differs from the plain clone's); metrics.state; total; failures; successes; slow; in-flight; wake mask (callers 0..119 only)]; "
           "operator actions and state_sync/is_open go through a clone of the plain breaker taken before with_fallback, state()/metrics() and the callers through (clones of) the service itself; "
           "r: -1 no poll, 0 pending, 1 Ok, 2 Err(Inner), 3 OpenCircuit, 4 fallback response, 5 panicked, 9 nothing to poll; states 0 Closed 1 Open 2 HalfOpen")
 TRUSTED = ["rates are compared as exact rationals in the model (cnt*den >= num*total); the code compares binary64 quotients — equal for the small counts/denominators generated (distinct small rationals never round to the same double)",
            "tokio Mutex around the Circuit is free at poll granularity (no guard is held across an await); oneshot gate",
            "poll atomicity"]
-ASSUMPTIONS = ["whole-millisecond instants, or whole-microsecond instants in scripts with the unit_us bit", "a wait_duration_in_open of 10^18 ms in a script stands for Duration::MAX (stay open until closed by hand)", "sliding_window_duration is always set for time-based windows"]
+ASSUMPTIONS = ["whole-millisecond instants, or whole-microsecond / whole-nanosecond instants in scripts with the unit_us / unit_ns bit (1 ns is the resolution of Duration and Instant: nothing finer exists)", "a wait_duration_in_open of 10^18 ms in a script stands for Duration::MAX (stay open until closed by hand)", "sliding_window_duration is always set for time-based windows"]
 
 
-US_WAITS = [500, 999, 1500, 1900, 1001, 2000, 2750]      # microseconds; mostly not whole milliseconds
+US_WAITS = [500, 999, 1500, 1900, 1001, 2000, 2750]      # sub-units; mostly not whole multiples of 1000
+NS_WAITS = US_WAITS + [900, 1500500, 999999, 2000001]     # nanoseconds: also not whole µs / ms
 
 
 def cfg(tb=0, wsize=4, wdur=100, minc=2, fnum=1, fden=2, slow_on=0, slow_thr=50, snum=1, sden=2, wait=30, perm=2, fb=0, n=4, us=0):
-    """tb may already carry the unit bit; us=1 sets it"""
-    return [tb + 2 * us, wsize, wdur, minc, fnum, fden, slow_on, slow_thr, snum, sden, wait, perm, fb, n]
+    """us=1: the script is in microseconds, us=2: in nanoseconds"""
+    return [tb + (2 if us == 1 else 4 if us == 2 else 0), wsize, wdur, minc, fnum, fden, slow_on, slow_thr, snum, sden, wait, perm, fb, n]
 
 
 def events(s):
@@ -40,7 +41,19 @@ def events(s):
             out.append(e)
         elif e[0] in (5, 6, 7):
             out.append(e)
+        elif e[0] in (15, 16, 17):
+            out.append((e[0] - 10, e[1], e[2]))   # same operator action, through the service's own handle
+        elif e[0] in (25, 26):
+            out.append((e[0] - 20, e[1], e[2]))   # health trigger = force_open / force_closed by a spawned task
     return out
+
+
+def via(rng, op):
+    """an operator action through the plain clone (op) or through the service's own handle (op + 10)"""
+    x = rng.random()
+    if x < 0.12 and op in (5, 6):
+        return op + 20          # HealthTriggerable::trigger_unhealthy / trigger_healthy
+    return op + 10 if x < 0.45 else op
 
 
 def decode(s, t):
@@ -121,6 +134,25 @@ def corpus():
     s = cfg(1, 2, 100000, 2, 1, 2, 0, 500, 1, 2, 500, 1, 1, 8, us=1)
     s += [5, 0, 0, 1, 0, 0, 3, 499, 0, 1, 1, 0, 3, 1, 0, 1, 2, 0]
     out.append(s)
+    # reset THROUGH THE FALLBACK SERVICE's own handle while closed empties the window (op 17), force_open / force_closed
+    # through it (15 / 16) act on the same circuit as the plain clone
+    s = cfg(0, 2, 100, 2, 1, 2, 0, 50, 1, 2, 30, 2, 1, 8)
+    s += seq_call(0, 2, 0) + [17, 0, 0] + seq_call(1, 2, 0) + seq_call(2, 0, 0) + [15, 0, 0, 1, 3, 0, 16, 0, 0, 1, 4, 0, 5, 0, 0, 16, 0, 0, 1, 5, 0,
+                                                                            25, 0, 0, 1, 6, 0, 26, 0, 0, 1, 7, 0]
+    out.append(s)
+    # nanosecond script: wait 1500 ns: callers at 1000 ns and 1499 ns are rejected; wait 900 ns is not "no wait"
+    s = cfg(0, 2, 10 ** 8, 2, 1, 2, 0, 500, 1, 2, 1500, 1, 0, 8, us=2)
+    s += seq_call(0, 2, 0) + seq_call(1, 2, 0) + [3, 1000, 0, 1, 2, 0, 3, 499, 0, 1, 3, 0, 3, 1, 0, 1, 4, 0]
+    out.append(s)
+    s = cfg(1, 2, 10 ** 8, 2, 1, 2, 0, 500, 1, 2, 900, 1, 1, 8, us=2)
+    s += [15, 0, 0, 1, 0, 0, 3, 899, 0, 1, 1, 0, 3, 1, 0, 1, 2, 0]
+    out.append(s)
+    # a rate just below its threshold: 1/3 with 33 failures of 100 stays closed, 34 opens
+    for kf in (33, 34):
+        s = cfg(0, 100, 10 ** 6, 100, 1, 3, 0, 50, 1, 2, 30, 1, 0, 102)
+        for i in range(100):
+            s += seq_call(i, 2 if i < kf else 0, 0)
+        out.append(s)
     # a call made (future created) before the breaker opens and first polled while it is open; with a fallback;
     # force_open goes through a clone taken before with_fallback
     s = cfg(0, 2, 100, 2, 1, 2, 0, 50, 1, 2, 10, 1, 1, 6)
@@ -135,8 +167,8 @@ def random_cfg(rng, n, us=False):
         fnum, fden = rng.choice([(0, 1), (1, 3), (1, 2), (2, 3), (1, 1), (1, 2)])
         snum, sden = rng.choice([(0, 1), (1, 3), (1, 2), (1, 1)])
         return cfg(int(tb), rng.choice([1, 2, 3, 4]), rng.choice([1500, 2999, 20000]), rng.choice([0, 1, 2, 3]), fnum, fden,
-                   int(rng.random() < 0.4), rng.choice([500, 1500, 1999]), snum, sden, rng.choice(US_WAITS),
-                   rng.choice([1, 1, 2, 3]), int(rng.random() < 0.3), n, us=1)
+                   int(rng.random() < 0.4), rng.choice([500, 1500, 1999]), snum, sden, rng.choice(NS_WAITS if us == 2 else US_WAITS),
+                   rng.choice([1, 1, 2, 3]), int(rng.random() < 0.3), n, us=int(us))
     tb = rng.random() < 0.4
     wsize = rng.choice([1, 2, 3, 4, 5])
     minc = rng.choice([0, 1, 2, 3, 4, 6])
@@ -151,7 +183,8 @@ def us_advances(wait, wdur=None, slow_thr=None):
     """advances (µs) that land exactly on, 1 µs before and 1 µs after the configured durations, on the millisecond
     boundaries around them, and their complements"""
     out = [1, wait - 1, wait, wait + 1, 1000 * (wait // 1000), 1000 * (wait // 1000) - 1, 999, 1000, 1,
-           max(1, wait - 1000 * (wait // 1000)), max(1, wait // 2)]
+           max(1, wait - 1000 * (wait // 1000)), max(1, wait // 2),
+           10 ** 6 * (wait // 10 ** 6), max(1, wait - 10 ** 6 * (wait // 10 ** 6))]
     for d in (wdur, slow_thr):
         if d:
             out += [d - 1, d, d + 1]
@@ -178,11 +211,11 @@ def random_seq_history(rng, length=None, us=False):
             elif x < 0.90:
                 s += [3, rng.choice(adv), 0]
             elif x < 0.95:
-                s += [5, 0, 0]
+                s += [via(rng, 5), 0, 0]
             elif x < 0.975:
-                s += [6, 0, 0]
+                s += [via(rng, 6), 0, 0]
             else:
-                s += [7, 0, 0]
+                s += [via(rng, 7), 0, 0]
         return s
     i = 0
     fail_p = rng.choice([0.1, 0.5, 0.5, 0.9])
@@ -197,11 +230,11 @@ def random_seq_history(rng, length=None, us=False):
         elif x < 0.88:
             s += [3, rng.choice([1, 5, 9, 10, 10, 11, 20, 30, 50, 51]), 0]
         elif x < 0.92:
-            s += [5, 0, 0]
+            s += [via(rng, 5), 0, 0]
         elif x < 0.96:
-            s += [6, 0, 0]
+            s += [via(rng, 6), 0, 0]
         else:
-            s += [7, 0, 0]
+            s += [via(rng, 7), 0, 0]
     return s
 
 
@@ -233,21 +266,23 @@ def rate_boundary_scripts(rng, maxden):
     return out
 
 
-def us_wait_boundary(rng):
+def us_wait_boundary(rng, ns=False):
     """wait_duration_in_open that is NOT a whole number of milliseconds (script unit = µs): open the breaker (by two
     failures or force_open), then new callers at elapsed = wait-1 µs, wait, wait+1 µs, at the millisecond boundaries
     below the wait, and right after opening (a wait below 1 ms must not count as 0)"""
-    wait = rng.choice(US_WAITS)
+    wait = rng.choice(NS_WAITS if ns else US_WAITS)
     perm = rng.choice([1, 2])
-    n = 12
-    s = cfg(int(rng.random() < 0.5), 2, rng.choice([5000, 50000]), 2, 1, 2, 0, 500, 1, 2, wait, perm, int(rng.random() < 0.3), n, us=1)
+    n = 14
+    s = cfg(int(rng.random() < 0.5), 2, rng.choice([5000, 50000]) * (1000 if wait > 10 ** 5 else 1), 2, 1, 2, 0, 500, 1, 2, wait, perm,
+            int(rng.random() < 0.3), n, us=2 if ns else 1)
     if rng.random() < 0.6:
         s += seq_call(0, 2, rng.choice([0, 0, 3])) + seq_call(1, 2, 0)
     else:
-        s += [5, 0, 0]
+        s += [via(rng, 5), 0, 0]
     nxt = 2
     elapsed = 0
-    marks = sorted(set(x for x in [0, 1, 999, 1000, 1001, 1000 * (wait // 1000), wait - 1, wait, wait + 1, wait // 2] if 0 <= x <= wait + 1))
+    marks = sorted(set(x for x in [0, 1, 999, 1000, 1001, 1000 * (wait // 1000), 10 ** 6 * (wait // 10 ** 6), wait - 1, wait, wait + 1, wait // 2]
+                       if 0 <= x <= wait + 1))
     marks = [m for m in marks if rng.random() < 0.7 or m in (wait - 1, 1000 * (wait // 1000))]
     for m in marks:
         if m > elapsed:
@@ -259,6 +294,73 @@ def us_wait_boundary(rng):
                 s += [4, nxt, rng.choice([0, 2]), 1, nxt, 0]
             nxt += 1
     s += [3, rng.choice([1, wait]), 0, 1, nxt, 0]
+    return s
+
+
+def farey_neighbour_scripts(rng, count, maxden=12):
+    """rates CLOSE TO BUT NOT EQUAL TO the threshold: threshold num/den, a window of w in {den+1, 2*den+1, 97, 100} calls
+    (minimum = window), of which k = ceil(w*num/den) are failures — the smallest count that reaches the threshold:
+    the breaker must open on the last call — or k-1: it must stay closed (e.g. 1/3 with 33 of 100: 0.33 < 1/3).
+    The same for the slow-call rate. A comparison in whole percent, with a tolerance, or in f32 goes wrong here."""
+    out = []
+    from math import gcd
+    pairs = [(n, d) for d in range(2, maxden + 1) for n in range(1, d) if gcd(n, d) == 1] + [(7, 20), (35, 100), (1, 1000), (99, 100), (67, 200)]
+    for _ in range(count):
+        if rng.random() < 0.5:
+            num, den = rng.choice(pairs)
+            w = rng.choice([den + 1, 2 * den + 1, 97, 100] if den < 100 else [97, 100, 101])
+            k = -(-w * num // den)
+            k -= rng.randrange(2)
+        else:
+            # the other way round: a window w with k marked calls, and the threshold with denominator <= 64 that is
+            # closest to k/w from above (the breaker must stay closed) or from below / equal (it must open):
+            # |rate - threshold| = 1/(w*den) or so — no tolerance, however small, survives
+            w = rng.choice([50, 64, 97, 100, 101])
+            k = rng.randint(1, w - 1)
+            above = rng.random() < 0.5
+            best = None
+            for d in range(2, 65):
+                n = (k * d) // w + 1 if above else (k * d) // w
+                if n <= 0 or n > d:
+                    continue
+                gap = abs(n * w - k * d) / (w * d)
+                if best is None or gap < best[0] or (gap == best[0] and rng.random() < 0.3):
+                    best = (gap, n, d)
+            if best is None:
+                continue
+            num, den = best[1], best[2]
+        if k < 0 or k > w:
+            continue
+        tb = rng.randrange(2)
+        slow = rng.random() < 0.4
+        n = w + 3
+        if slow:
+            s = cfg(tb, w, 10 ** 6, w, 1, 1, 1, 5, num, den, 30, 1, int(rng.random() < 0.2), n)
+        else:
+            s = cfg(tb, w, 10 ** 6, w, num, den, 0, 50, 1, 2, 30, 1, int(rng.random() < 0.2), n)
+        marked = set(rng.sample(range(w), k))
+        for i in range(w):
+            if slow:
+                s += seq_call(i, 0, rng.choice([5, 7]) if i in marked else rng.choice([0, 4]))
+            else:
+                s += seq_call(i, rng.choice([2, 1]) if i in marked else rng.choice([0, 3]), 0)
+        s += seq_call(w, 0, 0) + seq_call(w + 1, 0, 0)
+        out.append(s)
+    return out
+
+
+def long_run_then_failures(rng, m=1):
+    """256*m - j successes (1 <= j <= window) without any transition, then failures: when the window is full of
+    failures 256*m .. 256*m + window - 1 calls have been recorded since the last transition — a counter of recorded
+    calls narrowed to u8 has just wrapped to less than the window size / the minimum and would not let the breaker
+    open, which it must do exactly when the window is full of failures"""
+    w = rng.choice([3, 4, 5])
+    k = 256 * m - rng.randint(1, w)
+    s = cfg(rng.randrange(2), w, 10 ** 6, rng.choice([1, w, w + 2]), 1, 1, 0, 50, 1, 2, 30, 2, 0, k + w + 4)
+    for i in range(k):
+        s += seq_call(i, 0, 0)
+    for i in range(k, k + w + 4):
+        s += seq_call(i, 2, 0)
     return s
 
 
@@ -315,7 +417,7 @@ def classifier_panic_trials(rng):
             nxt += 1
     s += [3, rng.choice([1, wait, 60]), 0, 1, nxt, 0]
     nxt += 1
-    s += [rng.choice([5, 6, 7]), 0, 0, 3, wait, 0]
+    s += [via(rng, rng.choice([5, 6, 7])), 0, 0, 3, wait, 0]
     while nxt < n:
         s += [1, nxt, 0]
         if rng.random() < 0.5:
@@ -341,11 +443,11 @@ def random_concurrent(rng, maxn=8, maxlen=40):
         elif x < 0.94:
             s += [4, rng.randrange(n), rng.choice([0, 0, 1, 2, 2, 2, 3, 4, 0, 0, 1, 2, 2, 2, 3, 5])]
         elif x < 0.96:
-            s += [5, 0, 0]
+            s += [via(rng, 5), 0, 0]
         elif x < 0.98:
-            s += [6, 0, 0]
+            s += [via(rng, 6), 0, 0]
         else:
-            s += [7, 0, 0]
+            s += [via(rng, 7), 0, 0]
     return s
 
 
@@ -355,9 +457,9 @@ def half_open_burst(rng, us=False):
     n = rng.randint(4, 10)
     tb = int(rng.random() < 0.5)
     perm = rng.choice([1, 2, 3, rng.choice([4, 5, 8])])
-    wait = rng.choice(US_WAITS) if us else rng.choice([10, 20, rng.choice([0, 10])])
+    wait = rng.choice(NS_WAITS if us == 2 else US_WAITS) if us else rng.choice([10, 20, rng.choice([0, 10])])
     slow_on = int(rng.random() < 0.3)          # slow (successful) trials must still count as successes
-    s = cfg(tb, 2, rng.choice([15000, 50000] if us else [15, 50]), 2, 1, 2, slow_on, 5, rng.choice([1, 1, 0]), 2, wait, perm,
+    s = cfg(tb, 2, rng.choice([15000000, 50000000] if us == 2 else [15000, 50000] if us else [15, 50]), 2, 1, 2, slow_on, 5, rng.choice([1, 1, 0]), 2, wait, perm,
             int(rng.random() < 0.3), n + 4, us=int(us))
     stale = []
     if rng.random() < 0.3:
@@ -438,7 +540,7 @@ def multi_phase_burst(rng):
             j = mine.pop(rng.randrange(len(mine)))
             s += [4, j, 2, 1, j, 0]
         else:
-            s += [5, 0, 0]
+            s += [via(rng, 5), 0, 0]
         stale += mine
     return s
 
@@ -476,6 +578,15 @@ def classify(s, t):
         out.append("wait=0")
     if (s[0] >> 1) & 1:
         out.append("unit_us")
+    if (s[0] >> 2) & 1:
+        out.append("unit_ns")
+    body = s[NCFG:]
+    if any(body[i] in (15, 16, 17) for i in range(0, len(body) - len(body) % 3, 3)):
+        out.append("operator_via_service_handle")
+    if any(body[i] in (25, 26) for i in range(0, len(body) - len(body) % 3, 3)):
+        out.append("health_trigger")
+    if len(body) // 12 > 256:
+        out.append(">256_calls")
     return out
 
 
